@@ -352,5 +352,56 @@ check("quick tier: every history x both cursors x {NOT NULL failure, static fail
 check("... 10 histories", len(c12.HISTORIES), 10)
 check("the NOT NULL failing MERGE of the history cases fails in its 2nd clause after a 1st clause with work", (lambda r: (r["error"], r["per_clause"][0] > 0))(M.merge(c12.target_rows((0, 1, 2), True), c12.source_rows((0, 1, 2)), ("k", "v", "w"), S, ON, c12.clauses_ast(c12.NOTNULL_LISTS[0]), not_null=("w",))), (True, True))
 
+# ---- 15. spelling of the source name at its declaration x at the references -------------------------------------------------
+# Snowflake identifier rules (https://docs.snowflake.com/en/sql-reference/identifiers-syntax): an unquoted identifier is
+# stored and resolved in upper case; a quoted one keeps its case. Written here independently of c12.NAME_FORMS:
+def denotes(text):
+    return text[1:-1] if text.startswith('"') else text.upper()
+
+
+check("src, SRC and \"SRC\" denote one identifier; \"src\" another", (denotes("src"), denotes("SRC"), denotes('"SRC"'), denotes('"src"')), ("SRC", "SRC", "SRC", "src"))
+ok = True
+for sp, (kind, d, r) in c12.SRCNAME.items():
+    _tgt, _tq, src, sq, _kw, _setq, _rev, _flt = c12.SPELLINGS[sp]
+    declared = src.split(" ")[-1].split(".")[-1]  # the last word after USING: the alias, or the (qualified) table name
+    if denotes(declared) != denotes(sq):
+        ok = False
+        print("   not the same identifier:", sp, declared, sq)
+    if kind.startswith("table") and denotes(declared) != "S":
+        ok = False
+        print("   not the stored table S:", sp, declared)
+check("every source-name spelling declares and references the SAME identifier (a table source always the stored S)", ok, True)
+check("3 x 3 forms for the 2 table declarations, 3 x 3 + quoted lower-case for the 3 alias declarations", len(c12.SRCNAME), 2 * 9 + 3 * 10)
+check("no spelling mixes a quoted lower-case name with another form", [sp for sp, (_k, d, r) in c12.SRCNAME.items() if (d == "quoted_lower") != (r == "quoted_lower")], [])
+check(
+    "render: table declared in lower case, referenced quoted; only the ON condition uses the source",
+    c12.render((("D", None),), "sn:table:lower:quoted_upper"),
+    'MERGE INTO t USING s ON t.k = "S".k WHEN MATCHED THEN DELETE',
+)
+check(
+    "render: alias declared quoted, referenced in lower case inside expressions",
+    c12.render((("D", None), ("I", None, "expr_v")), "sn:alias:quoted_upper:lower"),
+    "MERGE INTO t USING s AS \"SRC\" ON t.k = src.k WHEN MATCHED THEN DELETE WHEN NOT MATCHED THEN INSERT (k, v) VALUES (src.k, src.v || 'x')",
+)
+check(
+    "render: subquery alias in upper case, referenced quoted in a WHEN condition",
+    c12.render((("D", "src"),), "sn:subq_alias:upper:quoted_upper"),
+    'MERGE INTO t USING (SELECT k, v, f FROM s) AS SRC ON t.k = "SRC".k WHEN MATCHED AND "SRC".f = 1 THEN DELETE',
+)
+check(
+    "render: quoted lower-case alias on both sides, no AS; schema-qualified quoted table",
+    (c12.render((("U", None, "src"),), "sn:alias_noas:quoted_lower:quoted_lower"), c12.render((("U", None, "src"),), "sn:table_schema_q:quoted_upper:upper")),
+    ('MERGE INTO t USING s "src" ON t.k = "src".k WHEN MATCHED THEN UPDATE SET v = "src".v', 'MERGE INTO t USING s1."S" ON t.k = S.k WHEN MATCHED THEN UPDATE SET v = S.v'),
+)
+check("the use lists are filed under the category source_use() computes", [(u, x) for u, ls in c12.SRC_USE_LISTS.items() for x in ls if c12.source_use(x) != u], [])
+check("... and are valid clause lists", all(M.valid_clause_list(c12.clauses_ast(x)) for ls in c12.SRC_USE_LISTS.values() for x in ls), True)
+check("source_use: a column inside an expression wins over a condition", c12.source_use((("D", "src"), ("U", None, "expr_src"))), "inside_expression")
+check("source_use: SET v = t.v || 'x' uses no source column", c12.source_use((("U", None, "expr_tgt"),)), "on_only")
+jq = {(c[3][0][1], c[3][0][0]) for c in c12.enumerate_cases("quick") if c[3][0][1] in c12.SRCNAME}
+check("quick tier: every source-name spelling x every use list", len(jq), len(c12.SRCNAME) * sum(len(x) for x in c12.SRC_USE_LISTS.values()))
+check("the class of such a case names the cell, not the text", c12.shape_cause((("D", None),), "sn:alias:lower:quoted_upper"), ("source_name:declared=lower,referenced=quoted_upper,source_columns=on_only", "either"))
+e = c12.StepRaised("begin", ValueError("boom\nmore"))
+check("a raising harness step is carried as (step kind, exception type, first line)", (e.step, e.what), ("begin", ("builtins.ValueError", "boom")))
+
 print(f"\n{len(FAILS)} failed" if FAILS else "\nall passed")
 sys.exit(1 if FAILS else 0)
